@@ -8,6 +8,9 @@
                  v = sqrt(X) = 1/2 [[1+i, 1-i], [1-i, 1+i]], vi = v^-1;
                  rx(th) = exp(-i th X/2), ry, rz likewise;  xx(th) = exp(-i th XX/2), yy, zz likewise;
                  cnot (control, target);  swap;
+                 `control` / `controls` on a gate of the qis gateset: the gate U above becomes
+                 |0><0| (x) 1 + |1><1| (x) U per control wire (every control on 1), controls listed first;
+                 cnot is x with one control, so cnot with further controls is a multiply controlled x;
                  pauliexp: exp(-i time * sum_k coefficients[k] * terms[k]), term strings little-endian
                  (the LAST character acts on targets[0]).
      native      gpi(phi)  = [[0, e^{-2 pi i phi}], [e^{2 pi i phi}, 0]]
@@ -133,16 +136,28 @@ Section IonQ.
     match l with [] => true | x :: r => negb (existsb (Nat.eqb x) r) && nodup_nat r end.
   Definition wires_ok (nq : nat) (ax : list nat) : bool := forallb (fun a => Nat.ltb a nq) ax && nodup_nat ax.
 
-  (* one op as (matrix, axes): controls first, then targets, exactly as the vendor lists them *)
+  (* k further control wires (all on 1) in front of a gate matrix: identity blocks, the gate in the last block *)
+  Definition ionq_ctrl_matrix (k : nat) (m : matrix) : matrix := ctrl_matrix O (repeat 2 k) [repeat 1 k] m.
+  (* the matrix of a named gate listed with `extra` controls beyond those the name itself carries *)
+  Definition ionq_ctrl_gate_matrix (extra : nat) (n : iname) (ps : list K) : matrix :=
+    match extra with
+    | 0 => ionq_gate_matrix n ps
+    | S _ => ionq_ctrl_matrix extra (ionq_gate_matrix n ps)
+    end.
+
+  (* one op as (matrix, axes): controls first, then targets, exactly as the vendor lists them.  A qis gate may be
+     listed with more controls than its name carries (none, or one for cnot); native gates take no control. *)
   Definition ionq_op_gop (native : bool) (nq : nat) (o : iop) : option (gop (K:=K)) :=
     match o with
     | IGate name ps cs ts =>
         match ionq_name native name with
         | None => None
         | Some n =>
-            if Nat.eqb (length cs) (iname_controls n) && Nat.eqb (length ts) (iname_targets n)
+            if (Nat.eqb (length cs) (iname_controls n) || (negb native && Nat.leb (iname_controls n) (length cs)))
+               && Nat.eqb (length ts) (iname_targets n)
                && Nat.eqb (length ps) (iname_params n) && wires_ok nq (cs ++ ts)
-            then Some (GMat (repeat 2 (length (cs ++ ts))) (ionq_gate_matrix n ps), cs ++ ts)
+            then Some (GMat (repeat 2 (length (cs ++ ts)))
+                            (ionq_ctrl_gate_matrix (length cs - iname_controls n) n ps), cs ++ ts)
             else None
         end
     | IPauliExp [term] [(u, uc)] ts =>
